@@ -6,7 +6,8 @@ package main
 //
 // declares a ghost boolean of the function under verification. It is false at entry, becomes true at
 // every event matching the acquire pattern (recv:<chan>, send:<chan>, call:<func>), and every event
-// matching the consume pattern is an obligation "the token is held" after which it is false again.
+// matching the consume pattern is an obligation "the token is held" after which it is false again
+// (consume release:<func> clears the token at calls of func without that obligation).
 // At a loop head the token is forgotten (a fresh boolean) like every loop-carried value, so a loop
 // invariant has to say what is known about it: holds(<name>) in specifications.
 // This is how "X happens only after Y, once per Y" properties of one function become obligations
@@ -74,6 +75,14 @@ func tokenMatches(kind, tgtPattern, evKind, evTgt string) bool {
 // the state in which the event is known to happen.
 func (x *Exec) tokenEvent(st, evSt *State, evKind, evTgt string, cond *Term) {
 	for _, d := range x.tokenDecls() {
+		if d.consKind == "release" && tokenMatches("call", d.consTgt, evKind, evTgt) {
+			// release:<func>: the call clears the token; it is not an obligation that it is held
+			if cond == nil {
+				st.ghost[tokenKey(d.name)] = TFalse
+			} else {
+				st.ghost[tokenKey(d.name)] = And(x.tokenValue(st, d.name), Not(cond))
+			}
+		}
 		if tokenMatches(d.consKind, d.consTgt, evKind, evTgt) {
 			x.emit(evSt, "token", d.name+":held", x.tokenValue(evSt, d.name), false, d.line)
 			if cond == nil {
